@@ -28,6 +28,7 @@ OBLIGATIONS = {
     "history_sequences": "operation sequences (non-initial process states) explored",
     "cli_over_file": "an explicit option competed with a different config-file value", "toml_over_json": "both files present with different values",
     "file_over_default": "a config-file value different from the default with no explicit option", "junk_key": "a config file with an undefined key",
+    "option_before_subcommand": "a base-parser option that the subcommand does not redeclare, typed before the subcommand",
     "subcommand_redeclares_option": "key/pubkey --output-format (declared by the subcommand itself, with the extra pem choice) covered",
     "empty_input": "empty input converted", "odd_nibbles": "hex input with an odd number of digits", "bits_not_multiple_of_8": "binary input "
     "whose length is not a multiple of 8",
@@ -189,7 +190,12 @@ def norm(dest, v):
 def chk_prec(case):
     """one lattice node"""
     sub, dest, opt = case["sub"], case["dest"], case["opt"]
-    argv = ([sub] if sub else []) + ([f"{opt}={case['cli']}"] if case["cli"] is not None else []) + list(case["pos"])
+    if case.get("before"):
+        # the option belongs to the base parser only (the subcommand does not redeclare it): it is typed before the subcommand;
+        # optionally ANOTHER explicit option follows the subcommand
+        argv = ([f"{opt}={case['cli']}"] if case["cli"] is not None else []) + [sub] + list(case.get("after", [])) + list(case["pos"])
+    else:
+        argv = ([sub] if sub else []) + ([f"{opt}={case['cli']}"] if case["cli"] is not None else []) + list(case["pos"])
     toml, js = case["toml"], case["json"]
     obs = run_main(argv, files={"toml": toml, "json": js}, mode="config")
     exp = expected_value(dest, case["cli"], toml, js)
@@ -206,10 +212,14 @@ def chk_prec(case):
                  "file-ignored" if case["cli"] is None and got == DEFAULTS[dest] else "other")
         return [(f"C20/precedence/{sub or 'base'}/{dest}/{which}", f"effective {dest} = {got!r}, expected {exp!r} ({tag})")]
     # other keys must be unaffected by this option / junk keys
+    also = {}
+    for o in case.get("after", []):
+        name, _, val = o.partition("=")
+        also[name.lstrip("-").replace("-", "_")] = val
     for k in CONFIG_KEYS:
         if k == dest:
             continue
-        e = expected_value(k, None, toml, js)
+        e = expected_value(k, also.get(k), toml, js)
         if norm(k, obs["config"][k]) != norm(k, e):
             return [(f"C20/precedence/{sub or 'base'}/{k}/side-effect", f"{k} = {obs['config'][k]!r}, expected {e!r} ({tag})")]
     if dest == "log_level":
@@ -381,7 +391,7 @@ def lattice(dest, tier):
         triples = list(itertools.permutations(vals[:3], 3))
     else:
         triples = list(itertools.product(vals, repeat=3))
-    for cli_p, toml_p, json_p, junk in itertools.product((False, True), ("none", "nokey", "key"), ("none", "nokey", "key"), (False, True)):
+    for cli_p, toml_p, json_p, junk in itertools.product((False, True), ("none", "nokey", "key"), ("none", "nokey", "key"), (0, 1, 2)):
         if junk and toml_p == "none" and json_p == "none":
             continue
         used = [cli_p, toml_p == "key", json_p == "key"]
@@ -398,6 +408,11 @@ def lattice(dest, tier):
                     if f is not None:
                         f["bogus_key"] = "x"
                         f["subcommand"] = "key"
+                        if junk == 2:
+                            # undefined keys that collide with names the Config object already has (methods, dunder
+                            # attributes) or with argparse destinations
+                            f.update({"update": "x", "load_config": "y", "__dict__": "z", "__class__": "w", "config_dir": "/nonexistent",
+                                      "in_file": "q", "out_file": "r"})
             yield {"cli": a if cli_p else None, "toml": toml, "json": js}
 
 
@@ -442,11 +457,40 @@ def run_job(job):
                     acc.ob("file_over_default")
                 if (t and "bogus_key" in t) or (j and "bogus_key" in j):
                     acc.ob("junk_key")
+                if (t and "update" in t) or (j and "update" in j):
+                    acc.ob("junk_key_named_like_a_method")
                 if row["sub"] in ("key", "pubkey") and row["dest"] == "output_format":
                     acc.ob("subcommand_redeclares_option")
                 acc.check("prec", case, chk_prec)
                 if acc.evaluations % 300 == 1:
                     acc.sample({k: case[k] for k in ("sub", "dest", "cli", "toml", "json")})
+        # options of the base parser that a subcommand does NOT redeclare but uses: typed before the subcommand they must win too,
+        # also when another explicit option follows the subcommand
+        base_opts = {r["dest"]: r["opt"] for r in table if r["sub"] is None}
+        sub_dests = {}
+        for r in table:
+            if r["sub"]:
+                sub_dests.setdefault(r["sub"], {})[r["dest"]] = r["opt"]
+        for sub_, have_ in sorted(sub_dests.items()):
+            for dest, opt in base_opts.items():
+                if dest in have_:
+                    continue
+                afters = [[]] + [[f"{o}={ALPHA[d][1]}"] for d, o in have_.items() if d in ("log_level", "network")][:1]
+                for after in afters:
+                    for node in lattice(dest, "quick"):
+                        if node["cli"] is None:
+                            continue
+                        i += 1
+                        if i % nsh != sh:
+                            continue
+                        acc.evaluations += 1
+                        acc.executions += 1
+                        acc.states += 1
+                        acc.transitions += 1
+                        acc.nontrivial += 1
+                        acc.ob("option_before_subcommand")
+                        acc.check("prec", {"sub": sub_, "dest": dest, "opt": opt, "pos": [r["pos"] for r in table if r["sub"] == sub_][0],
+                                           "before": True, "after": after, **node}, chk_prec)
         # config keys a subcommand does not accept on its command line (rpc_* for send/mine etc.): file layers only
         subs = sorted({r["sub"] for r in table if r["sub"]})
         have = {(r["sub"], r["dest"]) for r in table}
